@@ -315,11 +315,21 @@ def t_gpt(rng):
         if k == 'ee':
             c = rng.random()
             if c < 0.15:
-                s[2] = rng.choice(([0, 1, 0], [0, 2, 1], [1, 2, 0],
-                                   [0xff, 0xff, 0xff]))
+                if rng.random() < 0.6:
+                    # one bit of the start CHS 00 02 00 flipped (the top
+                    # two bits of the sector byte are cylinder bits 8-9)
+                    chs = [0, 2, 0]
+                    chs[rng.randrange(3)] ^= 1 << rng.randrange(8)
+                    s[2] = chs
+                else:
+                    s[2] = rng.choice(([0, 1, 0], [0, 2, 1], [1, 2, 0],
+                                       [0xff, 0xff, 0xff], [0, 0xc2, 0],
+                                       [0, 0x42, 0]))
                 reasons.append('protective_chs')
             elif c < 0.3:
-                s[3] = rng.choice((0, 2, 63, 2048, 0xffffffff))
+                # start LBA other than 1: fixed picks and single flipped bits
+                s[3] = rng.choice((0, 2, 63, 2048, 0xffffffff,
+                                   1 ^ (1 << rng.randrange(32))))
                 reasons.append('protective_lba')
         slots.append(s)
     nonempty = [i for i, s in enumerate(slots) if s is not None and s[1]]
